@@ -44,10 +44,15 @@ Lemma w_cmp_ok : verdict fl_sqlite w_cmp = ([1; 1]%nat, [1]%nat, false).        
 Lemma w_ne_filter_ok : verdict fl_sqlite w_ne_filter = ([2; 2]%nat, [1]%nat, false).  Proof. vm_compute. reflexivity. Qed.
 Lemma w_logic_ok : verdict fl_sqlite w_logic = ([3]%nat, [2]%nat, false).             Proof. vm_compute. reflexivity. Qed.
 (* maximum / minimum / fmax / fmin: since /repo 9699787 the SQL templates follow Pandas (fl_sqlite, fl_postgres): the cause is
-   met, no convention of SQLite matters, the models agree.  Polars (fl_polars) still ignores a null operand of maximum / minimum. *)
+   met, no convention of SQLite matters, the models agree; since /repo 73dee51 the same holds for Polars (fl_polars).  Only a
+   hypothetical backend that ignored a null operand (the field set by hand) would still differ: that is why the cause stays in
+   the hypothesis of the agreement theorems, which quantify over EVERY flavour. *)
 Lemma w_minmax_ok : verdict fl_sqlite w_minmax = ([4; 4; 4]%nat, []%nat, true).       Proof. vm_compute. reflexivity. Qed.
 Lemma w_fminmax_ok : verdict fl_sqlite w_fminmax = ([5; 5; 5]%nat, []%nat, true).     Proof. vm_compute. reflexivity. Qed.
-Lemma w_minmax_polars : verdict fl_polars w_minmax = ([4; 4; 4]%nat, [3]%nat, false).  Proof. vm_compute. reflexivity. Qed.
+Lemma w_minmax_polars : verdict fl_polars w_minmax = ([4; 4; 4]%nat, []%nat, true).    Proof. vm_compute. reflexivity. Qed.
+Lemma w_minmax_postgres : verdict fl_postgres w_minmax = ([4; 4; 4]%nat, []%nat, true). Proof. vm_compute. reflexivity. Qed.
+Definition fl_ignoring_minmax : flavor := set_field FMinMax true fl_pandas.
+Lemma w_minmax_hypothetical : verdict fl_ignoring_minmax w_minmax = ([4; 4; 4]%nat, [3]%nat, false). Proof. vm_compute. reflexivity. Qed.
 Lemma w_empty_agg_ok : verdict fl_sqlite w_empty_agg = ([6]%nat, [5]%nat, false).     Proof. vm_compute. reflexivity. Qed.
 Lemma w_running_ok : verdict fl_sqlite w_running = ([7]%nat, [6]%nat, false).         Proof. vm_compute. reflexivity. Qed.
 Lemma w_sort_asc_ok : verdict fl_sqlite w_sort_asc = ([8]%nat, [7]%nat, false).       Proof. vm_compute. reflexivity. Qed.
@@ -74,8 +79,8 @@ Lemma w_ne_filter_refuted : differ_with_causes fl_sqlite [2; 2]%nat.
 Proof. exists w_ne_filter, w_env. vm_compute. split; reflexivity. Qed.
 Lemma w_logic_refuted : differ_with_causes fl_sqlite [3]%nat.
 Proof. exists w_logic, w_env. vm_compute. split; reflexivity. Qed.
-Lemma w_minmax_polars_refuted : differ_with_causes fl_polars [4; 4; 4]%nat.
-Proof. exists w_minmax, w_env. vm_compute. split; reflexivity. Qed.
+Lemma w_minmax_some_flavour_refuted : exists fl : flavor, differ_with_causes fl [4; 4; 4]%nat.
+Proof. exists fl_ignoring_minmax, w_minmax, w_env. vm_compute. split; reflexivity. Qed.
 Lemma w_empty_agg_refuted : differ_with_causes fl_sqlite [6]%nat.
 Proof. exists w_empty_agg, w_env. vm_compute. split; reflexivity. Qed.
 Lemma w_running_refuted : differ_with_causes fl_sqlite [7]%nat.
